@@ -379,6 +379,11 @@ int main(int argc, char **argv) {
         else if (!strcmp(op, "btrim") && b0 >= 0) printf(call("buffer/trim", na, a, &r) ? "ok" : "err");
         else if (!strcmp(op, "bclear") && b0 >= 0) printf(call("buffer/clear", na, a, &r) ? "ok" : "err");
         else if (!strcmp(op, "bblit") && b0 >= 0) printf(call("buffer/blit", na, a, &r) ? "ok" : "err");
+        else if (!strcmp(op, "bbitset") && b0 >= 0) printf(call("buffer/bit-set", na, a, &r) ? "ok" : "err");
+        else if (!strcmp(op, "bbitclear") && b0 >= 0) printf(call("buffer/bit-clear", na, a, &r) ? "ok" : "err");
+        else if (!strcmp(op, "bbittoggle") && b0 >= 0) printf(call("buffer/bit-toggle", na, a, &r) ? "ok" : "err");
+        else if (!strcmp(op, "bbit") && b0 >= 0) { if (call("buffer/bit", na, a, &r)) { pr_val(vb, r); printf("%s", vb); } else printf("err"); }
+        else if (!strcmp(op, "bfrombytes") && b0 >= 0) { if (call("buffer/from-bytes", na - 1, a + 1, &r)) { set_B(b0, janet_unwrap_buffer(r)); printf("ok"); } else printf("err"); }
         else if (!strcmp(op, "bslice") && na >= 2 && reg(tok[2], 'B', NB) >= 0) {
             Janet b2[3]; b2[0] = a[0]; for (int i = 2; i < na; i++) b2[i - 1] = a[i];
             if (call("buffer/slice", na - 1, b2, &r)) { set_B(reg(tok[2], 'B', NB), janet_unwrap_buffer(r)); printf("ok"); } else printf("err"); }
